@@ -27,6 +27,32 @@ import (
 func init() {
 	commands["conc-run"] = concRun
 	commands["conc-child"] = concChild
+	commands["conc-fresh"] = concFresh
+}
+
+// concFresh is run in a process of its own: its very first use of the writer package is the registration of a
+// driver for a built-in format, sequentially or racing the first constructor call.
+func concFresh(args []string) error {
+	racing := len(args) > 0 && args[0] == "racing"
+	done := make(chan struct{})
+	if racing {
+		go func() { writer.New(); close(done) }()
+	} else {
+		close(done)
+	}
+	writer.RegisterSerializer(formats.CDX15JSON, &fakeSer{id: "mine"})
+	<-done
+	s, err := writer.GetFormatSerializer(formats.CDX15JSON)
+	got := "err"
+	if err == nil {
+		if f, ok := s.(*fakeSer); ok {
+			got = f.id
+		} else {
+			got = "built-in"
+		}
+	}
+	fmt.Println("FRESH", got)
+	return nil
 }
 
 // fake drivers: the document they return / the bytes they render reveal which driver served the call
@@ -71,18 +97,20 @@ type linEvent struct {
 }
 
 type concCall struct {
-	G    int    `json:"g"`
-	Op   string `json:"op"`
-	Fmt  string `json:"fmt"`
-	Arg  string `json:"arg"`
-	Res  string `json:"res"`
-	Inv  int    `json:"inv"`
-	Ret  int    `json:"ret"`
-	Lin  int    `json:"lin"`
-	gid  int
+	G   int    `json:"g"`
+	Op  string `json:"op"`
+	Fmt string `json:"fmt"`
+	Arg string `json:"arg"`
+	Res string `json:"res"`
+	Inv int    `json:"inv"`
+	Ret int    `json:"ret"`
+	Lin int    `json:"lin"`
+	gid int
 }
 
-func vfmt(name string) formats.Format { return formats.Format("text/x-verif-" + name + "+json;version=1") }
+func vfmt(name string) formats.Format {
+	return formats.Format("text/x-verif-" + name + "+json;version=1")
+}
 
 // concChild runs the scripts in this process (built with -race by the parent check).
 func concChild(args []string) error {
@@ -323,7 +351,45 @@ func concChild(args []string) error {
 		lookers.Wait()
 		close(stop)
 		<-flipperDone
-		w.write(map[string]any{"op": "STRESS", "sid": 1000 + round, "writer_nilnil": wNilNil, "reader_nilnil": rNilNil, "panics": panics, "writes": writes})
+		// second half: the format is registered before and re-registered continuously - it is registered the whole
+		// time, so no lookup may report it missing
+		var rMissing, wMissing int64
+		g2 := vfmt("always")
+		reader.RegisterUnserializer(g2, &fakeUnser{id: "d"})
+		writer.RegisterSerializer(g2, &fakeSer{id: "s"})
+		stop2 := make(chan struct{})
+		flipper2 := make(chan struct{})
+		go func() {
+			defer close(flipper2)
+			for i := 0; ; i++ {
+				select {
+				case <-stop2:
+					return
+				default:
+				}
+				reader.RegisterUnserializer(g2, &fakeUnser{id: fmt.Sprint("d", i%7)})
+				writer.RegisterSerializer(g2, &fakeSer{id: fmt.Sprint("s", i%7)})
+			}
+		}()
+		var lookers2 sync.WaitGroup
+		for g := 0; g < 3; g++ {
+			lookers2.Add(1)
+			go func() {
+				defer lookers2.Done()
+				for i := 0; i < 30000; i++ {
+					if _, err := reader.GetFormatUnserializer(g2); err != nil {
+						atomic.AddInt64(&rMissing, 1)
+					}
+					if _, err := writer.GetFormatSerializer(g2); err != nil {
+						atomic.AddInt64(&wMissing, 1)
+					}
+				}
+			}()
+		}
+		lookers2.Wait()
+		close(stop2)
+		<-flipper2
+		w.write(map[string]any{"op": "STRESS", "sid": 1000 + round, "reader_missing": rMissing, "writer_missing": wMissing, "writer_nilnil": wNilNil, "reader_nilnil": rNilNil, "panics": panics, "writes": writes})
 	}
 	return nil
 }
@@ -434,6 +500,24 @@ func concRun(args []string) error {
 	for i, a := range pass {
 		if a == "--mode" && i+1 < len(pass) {
 			mode = pass[i+1]
+		}
+	}
+	if mode == "registry" {
+		// fresh processes (registry mode only)
+		for _, variant := range []string{"sequential", "racing", "racing", "racing"} {
+			outb, err := exec.Command(*racebin, "conc-fresh", variant).CombinedOutput()
+			got := "crash"
+			if err == nil {
+				for _, line := range strings.Split(string(outb), "\n") {
+					if strings.HasPrefix(line, "FRESH ") {
+						got = strings.TrimPrefix(line, "FRESH ")
+					}
+				}
+			}
+			if strings.Contains(string(outb), "WARNING: DATA RACE") {
+				got = "race"
+			}
+			w.write(map[string]any{"op": "FRESH", "sid": 2000, "variant": variant, "got": got, "want": "mine"})
 		}
 	}
 	w.write(map[string]any{"op": "RACE", "sid": 0, "mode": mode, "races": races, "sites": sl, "abort": abort})
